@@ -1421,7 +1421,7 @@ func mcJob(name, procs, acts, atomic, fixed, invs string, t tm) fw.TLCJob {
 
 func genJob(name, procs, acts, atomic, fixed, emit string, t tm) fw.TLCJob {
 	c := t.consts()
-	c["PROCS"], c["ACTS"], c["ATOMIC"], c["FIXED"], c["EMITACTS"], c["MAXHIST"], c["VIEW"] = procs, acts, atomic, fixed, emit, "999", "VIEW view"
+	c["PROCS"], c["ACTS"], c["ATOMIC"], c["FIXED"], c["EMITACTS"], c["MAXHIST"], c["VIEW"], c["XCON"] = procs, acts, atomic, fixed, emit, "999", "VIEW view", ""
 	return fw.TLCJob{Name: name, Module: "BruteForce", Cfg: "BruteForce_gen.cfg", Workers: 4, Timeout: 10 * time.Minute, Consts: c}
 }
 
@@ -1433,12 +1433,16 @@ func reloadClock(env *fw.Env) int {
 }
 
 func genRecycle(env *fw.Env) fw.TLCJob {
-	acts, mc := `{"Bad", "Good", "Query"}`, 0
+	// Which record a new address's record is built from depends on the ORDER of releases and first
+	// failures, not on the model state they lead to: ALL histories up to the bound are enumerated
+	// (hist in the fingerprint), each ending with the query of an address that is not banned but would
+	// be over PermAt had its record inherited what was released before it was created.
+	maxHist := "11" // 5 handshakes + the query
 	if env.Tier == "thorough" {
-		acts, mc = `{"Bad", "Good", "Query", "Tick", "Clean"}`, 2
+		maxHist = "13"
 	}
-	j := genJob("gen:recycle", `{"h1"}`, acts, "TRUE", fixAll, `{"inherit"}`, tm{2, 3, 2, 2, mc})
-	j.Consts["IPS"] = `{"a", "b"}`
+	j := genJob("gen:recycle", `{"h1"}`, `{"Bad", "Good", "Query"}`, "TRUE", fixAll, `{"inherit"}`, tm{2, 3, 2, 2, 0})
+	j.Consts["IPS"], j.Consts["VIEW"], j.Consts["MAXHIST"], j.Consts["XCON"] = `{"a", "b"}`, "", maxHist, "QueryLast"
 	return j
 }
 
